@@ -125,6 +125,9 @@ func drawStream(t *rapid.T) cli.StreamDef {
 			pl.Segs = append(pl.Segs, sg)
 		}
 		pl.ByteRange = rapid.IntRange(0, 2).Draw(t, label+"byterange") == 0
+		if pl.ByteRange && rapid.Bool().Draw(t, label+"dropOffsets") {
+			pl.RangeDrop = rapid.IntRange(1, 1<<16-1).Draw(t, label+"rangeDrop")
+		}
 	}
 	shape(&sd.Lead, "L")
 	if sd.Multi && sd.Container == "fmp4" {
@@ -398,6 +401,9 @@ func execC10(sc c10Scenario) core.Outcome {
 	}
 	if sc.Stream.Lead.ByteRange {
 		o.Labels = append(o.Labels, "byte-range")
+		if sc.Stream.Lead.RangeDrop != 0 {
+			o.Labels = append(o.Labels, "byte-range-without-offsets")
+		}
 	}
 	for _, tr := range sc.Stream.Lead.Tracks {
 		if !cli.SupportedByClient(sc.Stream.Container, tr.Codec) {
